@@ -1,5 +1,5 @@
 #!/usr/bin/env python3
-"""Rewrite the table of DESIGN.md section 9.7 (between the markers seeded-table-begin / seeded-table-end) from
+"""Rewrite the table of DESIGN.md section 9.8 (between the markers seeded-table-begin / seeded-table-end) from
 seeded/*/meta.json and seeded/results.json (written by tools/run_seeded.py)."""
 import json, os, re, sys
 ROOT = os.path.dirname(os.path.dirname(os.path.abspath(__file__)))
